@@ -1,7 +1,7 @@
 (* C11 — property theorems.  Nothing but statements, `exact`, Print Assumptions.
    `reach g` : g is reachable from the initial state by ANY sequence of labels, i.e. under every
    interleaving of the accept loop, the handlers, Shutdown, Close, clients, origin and context. *)
-From G11 Require Import Shutdown ShutdownCheck ShutdownProofs ShutdownAccepts ShutdownTrace ShutdownProgress ShutdownObligations.
+From G11 Require Import Shutdown ShutdownCheck ShutdownProofs ShutdownAccepts ShutdownTrace ShutdownRun ShutdownProgress ShutdownObligations.
 Open Scope Z_scope.
 
 (* Shutdown decides "drained" (and then returns nil) only in a state where the counter is zero and
@@ -110,6 +110,19 @@ Theorem T11_trace_inclusion_sound : forall tr,
 Proof. exact accepts_visible_sound. Qed.
 Print Assumptions T11_trace_inclusion_sound.
 
+(* Once forwarder's run() has returned - Shutdown returned nil, or it returned the context's error and
+   the Close that run() then calls has returned - and for ever after, along every continuation (late
+   registrations, handlers still unwinding, clients, anything): every connection that was ever served has
+   been closed, every other accepted connection is unserved, and closing stays set (so by T11_no_new_work
+   none of them will ever be served). *)
+Theorem T11_after_run_nothing_served_is_open : forall g,
+  reach g -> run_returned g ->
+  forall ls g', runf g ls = Some g' ->
+    run_returned g' /\ closing g' = true /\
+    forall i c, getc g' i = Some c -> sock_closed c = true \/ (served c = false /\ unserved_pc (pc c) = true).
+Proof. exact after_run. Qed.
+Print Assumptions T11_after_run_nothing_served_is_open.
+
 (* The property on observable histories.  p_check states the clauses on a trace: 1 a request whose first
    byte arrived after closing was observed has been forwarded; 2 a connection accepted after closing was
    observed has been served; 3 a response whose round trip ended after closing was observed lacks
@@ -146,3 +159,12 @@ Example T11_example_predicates_bite :
   p_check false bad = [1%N] /\ accepts_f bad = false /\
   p_check false [Acc 0%nat; Addr 0%nat; SdCall; ClosingSeen; SdRet true] = [6%N].
 Proof. exact (conj eq_refl (conj eq_refl eq_refl)). Qed.
+
+(* run() returning by its second route: a connection is being served, the context expires, Shutdown
+   returns its error, Close closes the connection and returns. *)
+Example T11_example_run_returns :
+  option_map (fun g => (sd g, cl g, map sock_closed (conns g), map served (conns g)))
+    (runf g0 [TSvChk; Acc 0%nat; TRegister 0%nat; Addr 0%nat; TChkConn 0%nat; LClose; SdCall; TSdLock; CtxExpire;
+              TSdOut false; SdRet false; ClCall; TClLock; SockCloseC 0%nat; TClOut; ClRet])
+  = Some (SdDone false, ClDone, [true], [true]).
+Proof. reflexivity. Qed.
